@@ -1,7 +1,7 @@
 """C20 — combined scenarios run every component, in order, in setup and in each iteration."""
 from . import _scn
 ID = "C20"
-PROPS = ["F1Verif.Props.C20"]
+PROPS = ["F1Verif.Props.C20", "F1Verif.Props.FactsC20"]
 ALSO = ["F1Verif.Props.Handle"]
 RULE = ("engine A: 2-5 generated components (setup program + iteration programs with pass / Fail / FailNow / panic "
         "behaviours) combined with the real f1.CombineScenarios and run through ActiveScenario.Setup and the worker's "
